@@ -184,6 +184,9 @@ def shard(tier, sh):
 def run(tier, seed):
     sl = slices(tier)
     st = runner.run_shards(__name__, 'shard', tier, shards(tier), seed)
+    from vf.props import c15b
+    st2, extra = c15b.run_part(tier, seed)
+    st.merge(st2)
     coverage = {
         'exhaustive': True,
         'states': st.c.get('states', 0),
@@ -201,15 +204,19 @@ def run(tier, seed):
                        for k, v in sl.items()),
         'bound': 'k<=2 per operand (merge/embed pairs, mask), k<=1 merge triples, forwards k<=1 x k<=1 (quick); k<=3, both star-name pairs, forwards k<=2 (thorough)',
     }
+    coverage.update(extra)
     assumptions = [
         'role-consistency as defined in DESIGN.md section 2 (kind + positional index of every shared name)',
-        'retrieval turning algebra failures into its fallback is checked by C06/C07 (programs), not here',
+        'part B: retrieval turning algebra failures into its fallback is checked on the forwarding programs of slice S1',
     ]
     return st, coverage, assumptions
 
 
 def replay(art):
     case = art['case']
+    if case.get('op') == 'program':
+        from vf.props import c15b
+        return c15b.replay(art)
     fn = getattr(S, case['op'])
     shapes = tuple(space.from_json(x) for x in case['sigs'])
     st = runner.Stats()
